@@ -53,6 +53,30 @@ CHECKS = {
         'construction is covered by C08.',
         'DESIGN.md §4 C10',
     ),
+    'C02': (
+        'exploration',
+        'metamorphic testing: Hypothesis-generated pipelines under compositions of computation-preserving rewritings '
+        '(validated by the reference model\'s descriptor), plus spawned interpreters with different PYTHONHASHSEED',
+        'Each generated case is rebuilt after 1-3 rewritings that the model certifies as computation-preserving (renames, '
+        'namespace mounting, permutations, JSON/YAML, multi-config, ignored/default parameters, config->context moves, '
+        'global_vars values, absent optional inputs); keys and relative paths must be equal and results computed through '
+        'the original chain must be loaded with zero runs through the rewritten one; keys are also compared across real '
+        'interpreter processes with different hash seeds.',
+        'Two open known findings (AutoParameterObject rendering mappings/sets with repr()) are excluded by specific '
+        'matchers; user-written ParameterObject.repr is outside the statement.',
+        'DESIGN.md §4 C02',
+    ),
+    'C03': (
+        'exploration',
+        'Hypothesis-generated value pairs (mutation-based and adversarial) against a type-strict canonical form, and '
+        'generated pipelines under computation-changing rewritings checked through the reference model\'s descriptor',
+        'Value level: tens of thousands of pairs of unequal JSON-like values must print differently wherever they enter '
+        'a key text. Chain level: a change at any upstream distance must move exactly the tasks whose descriptor changed. '
+        'One open known finding (unescaped quotes) is excluded by a matcher that requires the frozen 1.4.0 scheme to '
+        'collide too and a quote to be present.',
+        'sha256 collisions not considered; default elision follows Python == (type-consistent generation).',
+        'DESIGN.md §4 C03',
+    ),
     'C06': (
         'exploration',
         'Hypothesis strategies per storable domain driven through real tasks in real chains; round-trip oracle with '
